@@ -491,6 +491,17 @@ func (s *OS[T, P]) Sweep(dims []Dim, bg spec.Assignment, preds Pred, workers int
 			if s.Extra != nil {
 				s.Extra(a, &o, "")
 			}
+			if idx%4099 == 17 && s.R.WantSample() {
+				smp := map[string]any{"version": ver.Name, "state": ver.Full(a), "object_bytes": s.I.Describe(o), "Vector": vec}
+				if len(dims) > 0 {
+					m := ver.Metrics[dims[0].M]
+					succ := o
+					v := m.Values[dims[0].Vals[(dg[0]+1)%len(dims[0].Vals)]]
+					err := P(&succ).Set(m.Abv, v)
+					smp["transition"] = fmt.Sprintf("Set(%q,%q) -> err=%v, successor bytes %s", m.Abv, v, err, s.I.Describe(succ))
+				}
+				s.R.Sample(smp)
+			}
 			if preds&PredSetClosure != 0 {
 				for j, d := range dims {
 					m := ver.Metrics[d.M]
